@@ -52,7 +52,7 @@ func (c02) Gen(tier string, seed int64, emit func([]Ev)) {
 	r := rand.New(rand.NewSource(seed))
 	perLen := 2
 	if tier == "thorough" {
-		perLen = 12
+		perLen = 60
 	}
 	n := 0
 	c02Packets(r, perLen, func(p packet.Packet, kind string) {
